@@ -38,18 +38,26 @@ LEVEL_NOTE = (
 )
 RULE = (
     "part G: all labelled digraphs on n named compartments = every subset of the edges {i->j, i->output} "
-    "(optionally also i->i) x a menu of dose/input/lag/bioavailability placements x rate schemes "
-    "{sym: K_ij, pk: Q_ij/V_i and CL/V_i, mm: VM_ij/(KM_i+A_i(t)), shared: one symbol KS on every edge}, each built "
-    "through the real builder in one of two construction histories (attributes at creation, name order / plain "
-    "compartments in reverse order then set_dose,set_input,set_lag_time,set_bioavailability), chosen by parity of "
-    "the case index; part S: from each base system every sequence of builder operations (add/remove compartment, "
-    "add/remove flow, set/add/remove/move dose, set lag/F/input) up to the stated depth, states de-duplicated by "
-    "the complete builder graph (node order, adjacency order, attributes); part F (thorough): chains, stars, "
-    "cycles and complete graphs on 5 and 6 compartments x every single dose placement. A state is non-trivial "
-    "when it has >= 1 flow. On every state: names/amounts/matrix/inputs/eqs agree with the reference entrywise in "
-    "one order, column sums and sum of eqs give the mass balance, compartment attributes and flows equal the "
-    "reference; on the stated subset also to_compartmental_system(eqs) (same eqs; same flows when rates are "
-    "pairwise distinct), from_dict(to_dict(cs)) == cs (also through JSON) and subs (renaming and symbol->expression)"
+    "(in separate families also i->i) x a menu of dose/input/lag/bioavailability placements x rate schemes "
+    "{sym: K_ij; pk: Q_ij/V_i and CL/V_i; mm: VM_ij/(KM_i+A_i(t)); mmout: mm on output flows, sym elsewhere; "
+    "shared: one symbol KS on every edge}, each built through the real builder in one of two construction "
+    "histories (attributes at creation in name order / plain compartments in reverse order then "
+    "set_dose,add_dose,set_input,set_lag_time,set_bioavailability), chosen by parity of the case index; "
+    "part S: from each base system every sequence of builder operations (add/remove compartment, add/remove "
+    "flow, set/add/remove/move dose, set lag/F/input; ~30-50 applicable operations per state) up to the stated "
+    "depth, every child built with CompartmentalSystemBuilder(parent system), oracle run once per distinct "
+    "complete builder graph (node order, successor and predecessor order, attributes) within a shard; "
+    "part F (thorough): chain, reverse chain, star, cycle, complete graph on 5 and 6 compartments. "
+    "states = oracle runs; distinct_states / distinct_nontrivial = distinct complete builder graphs over the "
+    "whole run (non-trivial: >= 1 flow and the implementation accepted every operation). On every state "
+    "('light'): compartment attributes (doses as multiset, lag, F, input) and all n*(n+1) flows equal the "
+    "reference; compartment_names is a permutation of the names; amounts[k] is the amount of names[k]; "
+    "compartmental_matrix, zero_order_inputs and eqs equal the reference entrywise in that order; eqs == M A + u "
+    "with pharmpy's own M; column sums of M and the sum of all eqs give the mass balance. Additional oracles per "
+    "bound: 'tocs' to_compartmental_system(names, eqs) has the same equations, and the same flows/inputs when the "
+    "rate expressions are pairwise distinct; 'serial' from_dict(to_dict(cs)) == cs and has the reference "
+    "attributes/flows ('json': also through json.dumps/loads); 'subs' a renaming of every symbol and a "
+    "symbol->expression substitution commute with the reference model (attributes, flows, matrix, eqs)"
 )
 ASSUMPTIONS = [
     "expressions are compared by value on 3 fixed environments of generic positive reals, tolerance 1e-7 relative",
@@ -211,6 +219,15 @@ def _tuplify_op(op):
 
 
 # ----------------------------------------------------------------------------- the oracle
+TAGTXT = [
+    ("to_cs_", "to_compartmental_system(names, cs.eqs): "),
+    ("serial_json_", "from_dict(json.loads(json.dumps(cs.to_dict()))): "),
+    ("serial_", "from_dict(cs.to_dict()): "),
+    ("subs_rename_", "cs.subs({every symbol X: X_N}): "),
+    ("subs_scale_", "cs.subs({every symbol X: X*WT}): "),
+]
+
+
 class Cmp:
     """collects failures and counts compared values"""
 
@@ -219,6 +236,10 @@ class Cmp:
         self.n = 0
 
     def fail(self, cls, msg):
+        for pre, txt in TAGTXT:
+            if cls.startswith(pre):
+                msg = txt + msg
+                break
         self.fails.append((cls, msg))
 
     def num(self, cls, what, expr, want_vals, envs_act):
@@ -413,11 +434,11 @@ def check_to_cs(c, cs, ref, ea, er, ode):
         cs2 = to_compartmental_system({a: nm for a, nm in zip(amounts, names)}, [q._sympy_() for q in eqs])
         eqs2 = list(cs2.eqs)
     except Exception as e:
-        c.fail("to_cs_raised", f"to_compartmental_system(eqs) raised {type(e).__name__}: {e}")
+        c.fail("to_cs_raised", f"raised {type(e).__name__}: {e}")
         return
     by_lhs = {str(q.lhs): q for q in eqs2}
     if len(by_lhs) != len(eqs) or set(by_lhs) != {str(q.lhs) for q in eqs}:
-        c.fail("to_cs_eqs", f"to_compartmental_system(eqs) has equations for {sorted(by_lhs)}")
+        c.fail("to_cs_eqs", f"result has equations for {sorted(by_lhs)}")
         return
     for q in eqs:
         q2 = by_lhs[str(q.lhs)]
@@ -429,8 +450,8 @@ def check_to_cs(c, cs, ref, ea, er, ode):
                 c.fail("to_cs_eqs", f"not evaluable: {err}")
                 return
             if not close(a, b):
-                c.fail("to_cs_eqs", f"equation of {q.lhs}: original rhs {q.rhs} = {a:.9g}, after "
-                                    f"to_compartmental_system {q2.rhs} = {b:.9g}")
+                c.fail("to_cs_eqs", f"equation of {q.lhs}: original rhs {q.rhs} = {a:.9g}, rhs of the "
+                                    f"converted system {q2.rhs} = {b:.9g}")
                 return
     if ref.unique_rates():
         check_attrs(c, cs2, ref, ea, er, "to_cs_", doses=False)
@@ -443,16 +464,16 @@ def check_serial(c, cs, ref, ea, er, res, with_json=True):
         d = cs.to_dict()
         cs3 = CompartmentalSystem.from_dict(d)
     except Exception as e:
-        c.fail("serial_raised", f"from_dict(to_dict(cs)) raised {type(e).__name__}: {e}")
+        c.fail("serial_raised", f"raised {type(e).__name__}: {e}")
         return
     c.n += 1
     try:
         same = cs3 == cs
         if same is not True:
-            c.fail("serial_eq", "from_dict(to_dict(cs)) != cs")
+            c.fail("serial_eq", "result != cs")
     except Exception as e:
         same = None
-        c.fail("serial_eq_raised", f"from_dict(to_dict(cs)) == cs raised {type(e).__name__}: {e}")
+        c.fail("serial_eq_raised", f"result == cs raised {type(e).__name__}: {e}")
     check_attrs(c, cs3, ref, ea, er, "serial_")
     if same is True:
         try:
@@ -465,7 +486,7 @@ def check_serial(c, cs, ref, ea, er, res, with_json=True):
     try:
         cs5 = CompartmentalSystem.from_dict(json.loads(json.dumps(d)))
     except Exception as e:
-        c.fail("serial_json_raised", f"from_dict(json(to_dict(cs))) raised {type(e).__name__}: {e}")
+        c.fail("serial_json_raised", f"raised {type(e).__name__}: {e}")
         return
     check_attrs(c, cs5, ref, ea, er, "serial_json_")
 
@@ -476,7 +497,7 @@ def check_subs(c, cs, ref, ea, er, self_as_loss=False):
         try:
             cs4 = cs.subs(R.sub_map(kind, syms))
         except Exception as e:
-            c.fail("subs_raised", f"subs({kind}) raised {type(e).__name__}: {e}")
+            c.fail(f"subs_{kind}_raised", f"raised {type(e).__name__}: {e}")
             continue
         er2 = [R.sub_env(kind, syms, x) for x in er]
         tag = f"subs_{kind}_"
@@ -548,7 +569,7 @@ def evaluate(prog, cs, ref, level, res):
                  "what": f"[{R.fmt_prog(prog)}] {msg}", "class": cls}
             if cls in explained:
                 w["explained"] = "self_flow_as_loss"
-                w["class"] = cls + "/self_flow"
+                w["class"] = "self_flow_as_loss"  # one report line for the whole family
             res["violations"].append(w)
     return len(c.fails)
 
